@@ -3,7 +3,6 @@ From Coq Require Import ZArith List Bool Arith Lia ZifyBool.
 From XV Require Import model.Sched proofs.Sched_lemmas proofs.Sched_inv.
 Import ListNotations.
 Open Scope Z_scope.
-Set Implicit Arguments.
 
 Definition reachable (W : workload) (s : state) : Prop := exists ls, steps W (init W) ls = Some s.
 
@@ -23,10 +22,10 @@ Theorem final_absorbing_step : forall W s l s' j, wf W = true -> reachable W s -
   past_loop (pc (jobs s j)) = true ->
   st (jobs s' j) = st (jobs s j) /\ past_loop (pc (jobs s' j)) = true /\ finished (st (jobs s j)) = true.
 Proof.
-  intros W s l s' j WF R S P. pose proof (reachable_inv WF R) as I.
+  intros W s l s' j WF R S P. pose proof (reachable_inv W s WF R) as I.
   destruct (ext_step _ WF I S) as (_ & ST). destruct (ST j) as (A & B & C & _).
   pose proof (l_A (I_loc I j) P) as F.
-  split; [|split; auto]. destruct (st (jobs s j)); simpl in F; try discriminate; symmetry; auto.
+  split; [|split; auto]. destruct (st (jobs s j)); simpl in F; try discriminate; [apply A|apply B]; reflexivity.
 Qed.
 
 Theorem final_absorbing : forall W ls s s' j, wf W = true -> reachable W s -> steps W s ls = Some s' ->
@@ -36,8 +35,8 @@ Proof.
   intros W ls. induction ls as [|l ls IH]; intros s s' j WF R H P.
   - inversion H; subst; auto.
   - unfold steps in H. simpl in H. destruct (step_gen W all_fixed s l) as [s1|] eqn:E; [|discriminate].
-    destruct (final_absorbing_step j WF R E P) as (A & B & _).
-    destruct (IH s1 s' j WF (reachable_step R E) H B) as (C & D). split; congruence.
+    destruct (final_absorbing_step W s l s1 j WF R E P) as (A & B & _).
+    destruct (IH s1 s' j WF (reachable_step W s l s1 R E) H B) as (C & D). split; congruence.
 Qed.
 
 (* the value returned by job.wait() is the final state and stays so *)
@@ -45,18 +44,18 @@ Theorem returned_stable : forall W ls s s' j r, wf W = true -> reachable W s -> 
   pc (jobs s j) = PReturned r -> pc (jobs s' j) = PReturned r /\ st (jobs s' j) = r /\ finished r = true.
 Proof.
   intros W ls. induction ls as [|l ls IH]; intros s s' j r WF R H P.
-  - inversion H; subst. pose proof (reachable_inv WF R) as I. split; auto.
+  - inversion H; subst. pose proof (reachable_inv W s' WF R) as I. split; auto.
     pose proof (l_RT (I_loc I j) P) as X. split; auto. rewrite <- X. apply (l_A (I_loc I j)). rewrite P. auto.
   - unfold steps in H. simpl in H. destruct (step_gen W all_fixed s l) as [s1|] eqn:E; [|discriminate].
-    pose proof (reachable_inv WF R) as I. destruct (ext_step _ WF I E) as (_ & ST). destruct (ST j) as (_ & _ & _ & D & _).
-    apply (IH s1 s' j r WF (reachable_step R E) H). auto.
+    pose proof (reachable_inv W s WF R) as I. destruct (ext_step _ WF I E) as (_ & ST). destruct (ST j) as (_ & _ & _ & D & _).
+    apply (IH s1 s' j r WF (reachable_step W s l s1 R E) H). auto.
 Qed.
 
 (* ------------------------------------------------------------------ C06 counter_exact *)
 Theorem counter_exact : forall W s, wf W = true -> reachable W s ->
   unfinished s = Z.of_nat (length (filter (fun j => counted (pc (jobs s j))) (seq 0 (njobs W)))) /\ 0 <= unfinished s.
 Proof.
-  intros W s WF R. pose proof (I_cnt (reachable_inv WF R)) as C. split; [exact C|]. rewrite C. apply Nat2Z.is_nonneg.
+  intros W s WF R. pose proof (I_cnt (reachable_inv W s WF R)) as C. split; [exact C|]. rewrite C. apply Nat2Z.is_nonneg.
 Qed.
 
 (* ------------------------------------------------------------------ C04 launch_after_deps *)
@@ -67,7 +66,7 @@ Theorem launch_after_deps : forall W s l s' j k, wf W = true -> reachable W s ->
   launch_step s s' j -> In (DJob k) (deps W j) ->
   st (jobs s k) = DONE /\ st (jobs s' k) = DONE.
 Proof.
-  intros W s l s' j k WF R S L D. pose proof (reachable_inv WF R) as I.
+  intros W s l s' j k WF R S L D. pose proof (reachable_inv W s WF R) as I.
   destruct (ext_step _ WF I S) as (I' & ST). destruct (ST j) as (_ & _ & _ & _ & [X|(_ & _ & P)]).
   - unfold launch_step in L. rewrite X in L. exfalso. clear - L. lia.
   - assert (A : st (jobs s k) = DONE) by (apply (I_RD I j k); auto; right; rewrite P; auto).
@@ -78,24 +77,24 @@ Qed.
 Theorem launched_deps_done : forall W s j k, wf W = true -> reachable W s ->
   (launches (jobs s j) >= 1)%nat -> In (DJob k) (deps W j) -> st (jobs s k) = DONE.
 Proof.
-  intros W s j k WF R L D. pose proof (reachable_inv WF R) as I.
+  intros W s j k WF R L D. pose proof (reachable_inv W s WF R) as I.
   pose proof (l_L1 (I_loc I j)) as L1. apply (I_LD I j k); auto. clear - L L1. lia.
 Qed.
 
 (* supporting invariants, as stated in DESIGN section 6 *)
 Theorem unsatisfied_counts : forall W s j, wf W = true -> reachable W s -> started (pc (jobs s j)) = true ->
   length (cur (jobs s j)) = length (deps W j) /\ uns (jobs s j) = Z.of_nat (count_nok (cur (jobs s j))).
-Proof. intros W s j WF R S. apply (l_CI (I_loc (reachable_inv WF R) j) S). Qed.
+Proof. intros W s j WF R S. apply (l_CI (I_loc (reachable_inv W s WF R) j) S). Qed.
 
 Theorem ok_means_done : forall W s j i k, wf W = true -> reachable W s -> started (pc (jobs s j)) = true ->
   nth_error (cur (jobs s j)) i = Some DOK -> nth_error (deps W j) i = Some (DJob k) -> st (jobs s k) = DONE.
-Proof. intros W s j i k WF R. apply (I_CO (reachable_inv WF R)). Qed.
+Proof. intros W s j i k WF R. apply (I_CO (reachable_inv W s WF R)). Qed.
 
 Theorem done_absorbing : forall W ls s s' k, wf W = true -> reachable W s -> steps W s ls = Some s' ->
   st (jobs s k) = DONE -> st (jobs s' k) = DONE.
 Proof.
-  intros W ls s s' k WF R H D. pose proof (reachable_inv WF R) as I.
-  pose proof (l_D (I_loc I k) D) as P. destruct (final_absorbing k WF R H P) as (A & _). congruence.
+  intros W ls s s' k WF R H D. pose proof (reachable_inv W s WF R) as I.
+  pose proof (l_D (I_loc I k) D) as P. destruct (final_absorbing W ls s s' k WF R H P) as (A & _). congruence.
 Qed.
 
 (* ------------------------------------------------------------------ C06 final_truthful *)
@@ -104,7 +103,7 @@ Theorem final_truthful : forall W s j r, wf W = true -> reachable W s -> pc (job
   (r = DONE <-> (j_marker (spec W j) = true \/ ((launches (jobs s j) >= 1)%nat /\ j_code (spec W j) = 0))) /\
   (r <> DONE -> r = ERROR).
 Proof.
-  intros W s j r WF R P. pose proof (I_loc (reachable_inv WF R) j) as L. unfold jl in L.
+  intros W s j r WF R P. pose proof (I_loc (reachable_inv W s WF R) j) as L. unfold jl in L.
   pose proof (l_RT L P) as RT. split; auto.
   assert (F : finished (st (jobs s j)) = true) by (apply (l_A L); rewrite P; auto).
   assert (ST : started (pc (jobs s j)) = true) by (rewrite P; auto).
@@ -120,4 +119,263 @@ Proof.
       destruct (l_L2 L E) as (_ & [X|(_ & X)]); [rewrite P in X; discriminate|].
       rewrite <- RT, X. unfold code_state. rewrite C. reflexivity.
   - intros N. rewrite <- RT in *. destruct (st (jobs s j)); simpl in F; try discriminate; auto. contradiction.
+Qed.
+
+(* ------------------------------------------------------------------ C07 failures are contained *)
+(* j has an ancestor that ended in error, through jobs that had not already succeeded in an
+   earlier run (a job whose marker pre-existed is DONE whatever happened to its own inputs) *)
+Inductive fanc (W : workload) (s : state) : nat -> Prop :=
+  | fa_direct : forall j k, In (DJob k) (deps W j) -> st (jobs s k) = ERROR -> fanc W s j
+  | fa_step : forall j m, In (DJob m) (deps W j) -> j_marker (spec W m) = false -> fanc W s m -> fanc W s j.
+
+Lemma fanc_blocked : forall W s j, wf W = true -> reachable W s -> fanc W s j ->
+  launches (jobs s j) = 0%nat /\ (j_marker (spec W j) = false -> st (jobs s j) <> DONE).
+Proof.
+  intros W s j WF R F. pose proof (reachable_inv W s WF R) as I.
+  assert (G : forall j, (exists k, In (DJob k) (deps W j) /\ st (jobs s k) <> DONE) ->
+            launches (jobs s j) = 0%nat /\ (j_marker (spec W j) = false -> st (jobs s j) <> DONE)).
+  { intros x (k & D & N). assert (L0 : launches (jobs s x) = 0%nat).
+    { destruct (launches (jobs s x)) as [|n] eqn:E; auto. exfalso. apply N.
+      apply (launched_deps_done W s x k WF R); auto. rewrite E. clear. lia. }
+    split; auto. intros M D'. pose proof (l_L0 (I_loc I x) L0 D'). congruence. }
+  induction F as [j k D E|j m D M F IH].
+  - apply G. exists k. split; auto. congruence.
+  - apply G. exists m. split; auto. apply IH; auto.
+Qed.
+
+Theorem failed_ancestor_not_launched : forall W s j r, wf W = true -> reachable W s ->
+  fanc W s j -> j_marker (spec W j) = false ->
+  launches (jobs s j) = 0%nat /\
+  (pc (jobs s j) = PReturned r -> r = ERROR /\ fdep (jobs s j) = true).
+Proof.
+  intros W s j r WF R F M. destruct (fanc_blocked W s j WF R F) as (L0 & ND). split; auto.
+  intros P. destruct (final_truthful W s j r WF R P) as (RT & _ & E).
+  assert (X : r = ERROR) by (apply E; intros D; apply (ND M); congruence).
+  split; auto. apply (l_E (I_loc (reachable_inv W s WF R) j)); congruence.
+Qed.
+
+(* a failed job, once returned, is a failed ancestor of its dependents *)
+Lemma returned_error_fanc : forall W s j k, wf W = true -> reachable W s ->
+  In (DJob k) (deps W j) -> pc (jobs s k) = PReturned ERROR -> fanc W s j.
+Proof.
+  intros W s j k WF R D P. apply fa_direct with (k := k); auto.
+  apply (l_RT (I_loc (reachable_inv W s WF R) k) P).
+Qed.
+
+Theorem independent_unaffected : forall W s j r, wf W = true -> reachable W s ->
+  pc (jobs s j) = PReturned r -> j_marker (spec W j) = false ->
+  (forall k, In (DJob k) (deps W j) -> st (jobs s k) = DONE) ->
+  launches (jobs s j) = 1%nat /\ r = code_state (j_code (spec W j)).
+Proof.
+  intros W s j r WF R P M A. pose proof (reachable_inv W s WF R) as I.
+  destruct (final_truthful W s j r WF R P) as (RT & _ & E).
+  pose proof (l_L1 (I_loc I j)) as L1.
+  destruct (launches (jobs s j)) as [|[|n]] eqn:LA; [| |exfalso; clear - L1; lia].
+  - exfalso. assert (X : r = ERROR).
+    { apply E. intros D. rewrite <- RT in D. pose proof (l_L0 (I_loc I j) LA D). congruence. }
+    assert (FD : fdep (jobs s j) = true) by (apply (l_E (I_loc I j)); congruence).
+    destruct (I_FD I j FD) as (k & Dk & Ek). rewrite (A k Dk) in Ek. discriminate.
+  - split; auto. destruct (l_L2 (I_loc I j) LA) as (_ & [X|(_ & X)]); [rewrite P in X; discriminate|congruence].
+Qed.
+
+(* ------------------------------------------------------------------ experiment.wait() *)
+Lemma wst_check : forall W fx s j i, wst (check W fx s j i) = wst s /\ unfinished (check W fx s j i) = unfinished s
+  /\ failed (check W fx s j i) = failed s.
+Proof.
+  intros. unfold check. destruct (nth_error (deps W j) i); auto.
+  destruct (check_l (fx3 fx) (jobs s j) i (dep_status s d)) as [r w]. destruct w; auto.
+Qed.
+Lemma wst_commit : forall s j p, wst (commit s j p) = wst s /\ unfinished (commit s j p) = unfinished s.
+Proof. intros. unfold commit. destruct (snd p); auto. Qed.
+
+Definition waitres (s : state) : waitst :=
+  if unfinished s =? 0 then (match failed s with [] => WReturned | _ => WRaised end) else WBlocked.
+
+(* how one transition may change the status of wait() *)
+Lemma wst_step : forall W s l s', step W s l = Some s' ->
+  wst s' = wst s \/ (wst s = WBlocked /\ wst s' = WWoken) \/ wst s' = WStarting
+  \/ ((wst s = WStarting \/ wst s = WWoken) /\ wst s' = waitres s /\ jobs s' = jobs s /\ failed s' = failed s).
+Proof.
+  intros W s l s' H. unfold step in H. destruct l as [j|n|j|]; simpl in H.
+  - destruct ((j <? njobs W)%nat && match pc (jobs s j) with PNot => true | _ => false end
+              && forallb (dep_submitted s) (deps W j)); [|discriminate].
+    inversion H; subst s'. left. unfold submit. simpl.
+    destruct (reg s (j_ident (spec W j))); [destruct (st (jobs s n))|]; reflexivity.
+  - destruct (nth_error (queue s) n) as [c|]; [|discriminate]. inversion H; subst s'. clear H.
+    set (s0 := s_queue s (remove_nth n (queue s))).
+    assert (E0 : wst s0 = wst s /\ unfinished s0 = unfinished s /\ failed s0 = failed s /\ jobs s0 = jobs s) by (repeat split; reflexivity).
+    destruct E0 as (E1 & E2 & E3 & E4). rewrite <- E1. unfold waitres. rewrite <- E2, <- E3, <- E4.
+    generalize s0. clear. intros s. destruct c as [j|j|j i|j i| |]; simpl.
+    + destruct (pc (jobs s j)); auto. left. unfold run_spawn. apply wst_commit.
+    + unfold run_step. destruct (pc (jobs s j)); auto.
+      * left. apply wst_commit.
+      * destruct a; auto.
+        -- left. unfold start_body. destruct (acquire_l (avail s) (held (jobs s j)) (deps W j) 0) as [[av hd] [i|]]; simpl; auto.
+           rewrite (proj1 (wst_check _ _ _ _ _)). reflexivity.
+        -- left. unfold abort_return. rewrite (proj1 (wst_commit _ _ _)). reflexivity.
+        -- left. unfold proc_return. rewrite (proj1 (wst_commit _ _ _)). reflexivity.
+        -- unfold done_return. simpl. unfold notify_exit. simpl. destruct (wst s) eqn:E; simpl; rewrite ?E; auto.
+    + left. apply wst_check.
+    + destruct (nth_error (deps W j) i) as [[k|t c]|]; auto. destruct (0 <? avail s t)%nat; auto. left. apply wst_check.
+    + destruct (wst s) eqn:E; auto. right; right; right. unfold wait_check.
+      destruct (unfinished s =? 0); simpl; auto.
+    + destruct (wst s) eqn:E; auto. right; right; right. unfold wait_check.
+      destruct (unfinished s =? 0); simpl; auto.
+  - destruct (pc (jobs s j)); try discriminate. inversion H; subst s'. left. reflexivity.
+  - destruct (wst s); try discriminate; inversion H; subst s'; right; right; left; reflexivity.
+Qed.
+
+Definition wait_done (w : waitst) : bool := match w with WReturned | WRaised => true | _ => false end.
+(* every submitted job is final: it either has returned or stands for an already registered job *)
+Definition all_final (s : state) : Prop := forall j, counted (pc (jobs s j)) = false.
+
+Lemma unfinished_zero_all_final : forall W s, Inv W s -> unfinished s = 0 -> all_final s.
+Proof.
+  intros W s I U j. destruct (Nat.lt_ge_cases j (njobs W)) as [L|L].
+  - pose proof (I_cnt I) as C. rewrite U in C.
+    assert (Z0 : length (filter (cntf s) (seq 0 (njobs W))) = 0%nat) by (clear - C; lia).
+    destruct (counted (pc (jobs s j))) eqn:E; auto. exfalso.
+    assert (X : In j (filter (cntf s) (seq 0 (njobs W)))).
+    { apply filter_In. split; [apply in_seq; clear - L; lia|exact E]. }
+    destruct (filter (cntf s) (seq 0 (njobs W))); [contradiction|discriminate].
+  - rewrite (I_out I L). reflexivity.
+Qed.
+
+(* the step at which experiment.wait() returns or raises *)
+Definition wait_completes (s s' : state) : Prop := wait_done (wst s) = false /\ wait_done (wst s') = true.
+
+Lemma wait_completes_inv : forall W s l s', step W s l = Some s' -> wait_completes s s' ->
+  unfinished s = 0 /\ jobs s' = jobs s /\ failed s' = failed s /\
+  wst s' = match failed s with [] => WReturned | _ => WRaised end.
+Proof.
+  intros W s l s' S (N & D).
+  destruct (wst_step W s l s' S) as [X|[(X&Y)|[X|(X & Y & Z & F)]]].
+  - rewrite X in D. congruence.
+  - rewrite Y in D. discriminate.
+  - rewrite X in D. discriminate.
+  - unfold waitres in Y. destruct (unfinished s =? 0) eqn:U; [|rewrite Y in D; discriminate].
+    apply Z.eqb_eq in U. auto.
+Qed.
+
+Theorem wait_sound : forall W s l s', wf W = true -> reachable W s -> step W s l = Some s' ->
+  wait_completes s s' -> all_final s /\ all_final s' /\ unfinished s = 0.
+Proof.
+  intros W s l s' WF R S C. pose proof (reachable_inv W s WF R) as I.
+  destruct (wait_completes_inv W s l s' S C) as (U & Z & _).
+  pose proof (unfinished_zero_all_final W s I U) as A.
+  split; auto. split; auto. intros j. rewrite Z. apply A.
+Qed.
+
+Theorem exit_reports : forall W s l s', wf W = true -> reachable W s -> step W s l = Some s' ->
+  wait_completes s s' ->
+  (wst s' = WRaised <-> failed s' <> []) /\
+  (failed s' <> [] <-> exists j, pc (jobs s' j) = PReturned ERROR).
+Proof.
+  intros W s l s' WF R S C.
+  pose proof (reachable_inv W s' WF (reachable_step W s l s' R S)) as I'.
+  destruct (wait_sound W s l s' WF R S C) as (_ & A' & _).
+  destruct (wait_completes_inv W s l s' S C) as (_ & _ & F & Y).
+  split.
+  - rewrite Y, F. destruct (failed s); split; intros X; try discriminate; auto. congruence.
+  - split.
+    + intros N. destruct (failed s') as [|x t] eqn:E; [congruence|].
+      assert (X : In x (failed s')) by (rewrite E; left; auto).
+      apply (I_failed I') in X. destruct X as (P & ND). exists x.
+      specialize (A' x). destruct (pc (jobs s' x)) eqn:PC; simpl in *; try discriminate.
+      pose proof (l_RT (I_loc I' x) PC) as RT. pose proof (l_A (I_loc I' x)) as FA. rewrite PC in FA. specialize (FA eq_refl).
+      rewrite RT in *. destruct r; simpl in FA; try discriminate; congruence.
+    + intros (j & P) E. assert (X : In j (failed s')).
+      { apply (I_failed I'). rewrite P. split; auto. rewrite (l_RT (I_loc I' j) P). discriminate. }
+      rewrite E in X. contradiction.
+Qed.
+
+(* ------------------------------------------------------------------ the three defects of the unchanged tree *)
+(* schedules are written as the external events; the ready callbacks are run in queue order *)
+Inductive ext := XSubmit (j : nat) | XDeliver (j : nat) | XWait.
+Fixpoint drain_labels (W : workload) (fx : fixes) (s : state) (fuel : nat) : list label * state :=
+  match fuel with
+  | O => ([], s)
+  | S f => match queue s with
+           | [] => ([], s)
+           | _ => match step_gen W fx s (LRun 0) with
+                  | Some s' => let '(ls, s2) := drain_labels W fx s' f in (LRun 0 :: ls, s2)
+                  | None => ([], s)
+                  end
+           end
+  end.
+Fixpoint expand (W : workload) (fx : fixes) (s : state) (xs : list ext) : list label :=
+  match xs with
+  | [] => []
+  | x :: r =>
+      let l := match x with XSubmit j => LSubmit j | XDeliver j => LDeliver j | XWait => LWait end in
+      match step_gen W fx s l with
+      | Some s1 => let '(ls, s2) := drain_labels W fx s1 50 in l :: ls ++ expand W fx s2 r
+      | None => []
+      end
+  end.
+
+Definition W_resubmit : workload :=
+  {| w_jobs := [ {| j_deps := []; j_code := 1; j_marker := false; j_ident := 0 |};
+                 {| j_deps := []; j_code := 0; j_marker := false; j_ident := 0 |} ]; w_tokens := [] |}.
+Definition X_resubmit := [XSubmit 0; XDeliver 0; XDeliver 0; XDeliver 0; XDeliver 0; XSubmit 1;
+                          XDeliver 1; XDeliver 1; XDeliver 1; XDeliver 1; XWait]%nat.
+
+Definition W_overwrite : workload :=
+  {| w_jobs := [ {| j_deps := [DTok 0 2]; j_code := 0; j_marker := false; j_ident := 0 |};
+                 {| j_deps := [DTok 0 1]; j_code := 0; j_marker := false; j_ident := 1 |} ]; w_tokens := [3%nat] |}.
+Definition X_overwrite := [XSubmit 0; XSubmit 1; XDeliver 0; XDeliver 1; XDeliver 0; XDeliver 1; XDeliver 1;
+                           XDeliver 0; XDeliver 0; XDeliver 1; XWait]%nat.
+
+Definition W_abort : workload :=
+  {| w_jobs := [ {| j_deps := [DTok 0 1]; j_code := 0; j_marker := false; j_ident := 0 |};
+                 {| j_deps := [DTok 0 1]; j_code := 0; j_marker := false; j_ident := 1 |} ]; w_tokens := [1%nat] |}.
+Definition X_abort := [XSubmit 0; XSubmit 1; XDeliver 0; XDeliver 1; XDeliver 0; XDeliver 0; XDeliver 1; XDeliver 0; XWait]%nat.
+
+Definition quiescent (W : workload) (s : state) : Prop := queue s = [] /\ has_pending s W = false.
+
+(* #2: re-submitting a failed job: the counter goes negative and wait() blocks for ever
+   although every job has returned *)
+Theorem resubmit_counter_refuted : exists W ls s, wf W = true /\ steps_prefix W (init W) ls = Some s /\
+  unfinished s < 0 /\ quiescent W s /\ wst s = WBlocked /\
+  (forall j, (j < njobs W)%nat -> exists r, pc (jobs s j) = PReturned r).
+Proof.
+  exists W_resubmit, (expand W_resubmit no_fix (init W_resubmit) X_resubmit).
+  eexists. split; [reflexivity|]. split; [vm_compute; reflexivity|].
+  split; [vm_compute; reflexivity|]. split; [split; vm_compute; reflexivity|]. split; [vm_compute; reflexivity|].
+  intros j L. change (njobs W_resubmit) with 2%nat in L.
+  destruct j as [|[|j]]; [eexists; vm_compute; reflexivity|eexists; vm_compute; reflexivity|exfalso; lia].
+Qed.
+
+(* #3: a finished job is put back to READY; job.wait() returns READY *)
+Theorem ready_overwrite_refuted : exists W ls s j, wf W = true /\ steps_prefix W (init W) ls = Some s /\
+  pc (jobs s j) = PReturned READY /\ launches (jobs s j) = 1%nat /\ j_code (spec W j) = 0.
+Proof.
+  exists W_overwrite, (expand W_overwrite no_fix (init W_overwrite) X_overwrite).
+  eexists. exists 0%nat. split; [reflexivity|]. split; [vm_compute; reflexivity|].
+  repeat split; vm_compute; reflexivity.
+Qed.
+
+(* #4: an aborted start overwrites READY: the job sleeps for ever with its token free *)
+Theorem abort_race_refuted : exists W ls s j, wf W = true /\ steps_prefix W (init W) ls = Some s /\
+  quiescent W s /\ pc (jobs s j) = PAwaitReady /\ st (jobs s j) = WAITING /\ uns (jobs s j) = 0 /\
+  (forall t, avail s t = total W t) /\ wst s = WBlocked.
+Proof.
+  exists W_abort, (expand W_abort no_fix (init W_abort) X_abort).
+  eexists. exists 1%nat. split; [reflexivity|]. split; [vm_compute; reflexivity|].
+  split; [split; vm_compute; reflexivity|].
+  repeat split; try (vm_compute; reflexivity).
+  intros t. destruct t as [|[|t]]; vm_compute; reflexivity.
+Qed.
+
+(* the same schedules on the repaired scheduler end well *)
+Example repaired_runs_end_well :
+  (exists s, steps W_resubmit (init W_resubmit) (expand W_resubmit all_fixed (init W_resubmit) (X_resubmit ++ [XDeliver 1])) = Some s /\
+     unfinished s = 0) /\
+  (exists s, steps W_overwrite (init W_overwrite) (expand W_overwrite all_fixed (init W_overwrite) X_overwrite) = Some s /\
+     pc (jobs s 0) = PReturned DONE /\ wst s = WReturned) /\
+  (exists s, steps W_abort (init W_abort) (expand W_abort all_fixed (init W_abort)
+       (X_abort ++ [XDeliver 1; XDeliver 1; XDeliver 1; XDeliver 1])) = Some s /\
+     pc (jobs s 1) = PReturned DONE /\ wst s = WReturned).
+Proof.
+  split; [|split]; eexists; repeat split; vm_compute; reflexivity.
 Qed.
